@@ -33,6 +33,10 @@ BOOL_STEP_PROPS = ["C02", "C01", "C03", "C05", "C06", "C14"]
 BOOL_Q_PROPS = ["C04", "C01", "C03", "C05", "C06", "C14"]
 AQ_QUICK = {"bdd": {"exists_and", "forall_or", "unique_xor", "forall_imp"},
             "bcdd": set()}
+# the 24 quantifier/operator combinations share one implementation (apply_quant is generic in the
+# inner operator; the harness macro instantiates it); thorough runs a representative subset
+AQ_THOROUGH = {"bdd": {"exists_or", "exists_xor", "forall_and", "unique_and"},
+               "bcdd": {"exists_and", "forall_or", "unique_xor"}}
 for kind in ["bdd", "bcdd"]:
     CRATES[kind] = {}
     K = kind.upper()
@@ -68,6 +72,8 @@ for kind in ["bdd", "bcdd"]:
     for q in ["forall", "exists", "unique"]:
         for o in ["and", "or", "nand", "nor", "xor", "equiv", "imp", "imp_strict"]:
             nm = q + "_" + o
+            if nm not in AQ_QUICK[kind] and nm not in AQ_THOROUGH[kind]:
+                continue
             add(kind, "proofs::step_apply_" + nm, BOOL_Q_PROPS, tier="quick" if nm in AQ_QUICK[kind] else "thorough", timeout=2400, mem_reserve=12, mem_gb=14,
                 bounds="one recursion step of apply_%s(%s): <=%d pre-existing nodes, 6 slots, 3 levels" % (q, o, 3 if kind == "bdd" else 2))
 
@@ -109,13 +115,15 @@ for op in ["and", "or", "nand", "nor", "xor", "equiv", "imp", "imp_strict", "not
 add("tdd", "proofs::base_constants_var_eval", ["C11", "C03"], timeout=900, bounds="constants f/t/u (edge and handle level), var, cofactors on an arbitrary TDD with <=3 nodes")
 
 # ---------------------------------------------------------------- C17 RawTable
-CRATES["hashtbl"] = {}
+CRATES["hashtbl"] = {"kani_args": ["-Z", "stubbing"]}
 HB = "one operation on an arbitrary 16-slot RawTable<u8,u32> satisfying the representation invariant; key universe 4 keys with arbitrary 64-bit hashes (all collision patterns, wrap-around clusters, any tombstone layout)"
 for hn in ["step_find_get", "step_insert_free5", "step_insert_free12", "step_remove"]:
     add("hashtbl", "proofs::" + hn, ["C17"], profile="full", timeout=2400, bounds=HB)
 for n in [0, 1]:
     add("hashtbl", "proofs::step_insert_rehash_len%d" % n, ["C17"], profile="full", timeout=2400, mem_reserve=6,
         bounds=HB + "; insertion at the rehash boundary: free counter = slots/4 (concrete), %d live element(s), all other slots tombstones/FREE: reserve(1) must rehash (real reserve_rehash) before a FREE slot is consumed" % n)
+add("hashtbl", "proofs::step_retain_norehash", ["C17", "C05"], profile="full", timeout=2400, mem_reserve=6,
+    bounds=HB + "; retain with an arbitrary predicate (bit mask over the keys); the final shrinking reserve_rehash(0) is cut off by a stub (#[kani::stub]) that only records the request")
 add("hashtbl", "proofs::step_retain", ["XRETAIN"], profile="full", timeout=3000, mem_reserve=10, mem_gb=14, bounds=HB + "; retain with an arbitrary predicate incl. the shrink/rehash path")
 
 # ---------------------------------------------------------------- C15 DDDMP kernels
@@ -126,7 +134,6 @@ add("dddmp", "proofs::decode_any_12", ["C15"], profile="full", timeout=2400, mem
     bounds="real decode_7bit on every byte string of length <= 12 without escape bytes (covers truncation, over-long integers)")
 add("dddmp", "proofs::unescape_any", ["C15"], profile="full", timeout=600, bounds="real read_unescape on every byte string of length <= 2")
 add("dddmp", "proofs::sanitise_len1", ["C15"], profile="full", timeout=900, bounds="real replace_space_and_control on every 1-character ASCII name")
-add("dddmp", "proofs::sanitise_len2", ["C15"], tier="thorough", profile="full", timeout=3600, mem_gb=16, mem_reserve=14, bounds="real replace_space_and_control on every 2-character ASCII name")
 
 # ---------------------------------------------------------------- C06 DMApplyCache
 for cap in [1, 2, 4]:
@@ -243,9 +250,9 @@ PROPS = {
         "assumptions": [],
     },
     "C09": {
-        "claim": "Bounded model checking (SAT) of the real ZBDD rules over the stub manager: union/intsec/diff/subset0/subset1/change/make_node/singleton/empty/base return exactly the families of their documentation (families = 8-bit tables over 3 variables, any variable order for the variable-indexed operations), and the Boolean view (and/or/xor/not/imp/imp_strict/ite, var, t/f) is the same table.",
+        "claim": "Bounded model checking (SAT) of the real ZBDD rules over the stub manager: union/intsec/diff/subset0/subset1/make_node/singleton/empty/base return exactly the families of their documentation (families = 8-bit tables over 3 variables, any variable order for the variable-indexed operations), and the Boolean view (and/or/xor/not/imp/imp_strict/ite, var, t/f) is the same table.",
         "bounds": "tautology chain (real ZBDDCache code) + <=2 symbolic nodes (thorough 3), 8 slots, 3 levels, symbolic capacity, one recursion step with oracle sub-results", "note": STEP_NOTE,
-        "outside": "nand/nor/equiv as single harnesses (compositions of verified steps; exceed 12 GB), ZBDD restrict, add_vars on the real manager",
+        "outside": "change (step harness exists, exceeds 22 GB), nand/nor/equiv as single harnesses (compositions of verified steps; exceed 12 GB), ZBDD restrict, add_vars on the real manager",
         "assumptions": ["family semantics as bit tables: bit s = set s is a member"],
     },
     "C11": {
@@ -271,21 +278,21 @@ PROPS = {
     "C15": {
         "level": "other",
         "claim": "Kernels only: (a) the escaped 7-bit integer codec of the binary DDDMP mode round-trips every usize through the real writer and reader, consuming exactly the written bytes; (b) the real reader on every byte string of <=12 bytes returns the denoted integer or an error (truncation, over-long integers), never a silently wrapped value, never a panic; (c) the escape layer accepts exactly the four documented escapes; (d) the name sanitiser replaces exactly spaces and ASCII control characters by '_' and reports a replacement iff one happened. The export/import round trip on diagrams, the header parser and the ASCII node section are NOT decided (line-oriented String/Vec/FxHashMap code with symbolic allocation sizes is out of reach of the back end).",
-        "bounds": "every usize (codec); byte strings <= 12 bytes (decoder), <= 2 bytes (escape layer); ASCII names of 1 char (quick), 2 chars (thorough)",
+        "bounds": "every usize (codec); byte strings <= 12 bytes (decoder), <= 2 bytes (escape layer); ASCII names of 1 character",
         "outside": "export_common / import_ascii / import_bin / DumpHeader::load on diagrams, non-ASCII names, the ASCII list parsers (format!/from_utf8_lossy error paths exhausted 21 GB)",
         "note": "trusted: Kani/CBMC; hook feature verif-hooks of oxidd-dump re-exports the private kernels unchanged; alloc::fmt::format stubbed by an empty body (error messages are not the subject)",
         "explanation": "Solver-decided correctness of the byte-level kernels the round trip rests on; found and fixed two defects (spaces not sanitised; over-long integers silently wrapped).",
         "assumptions": ["alloc::fmt::format stubbed (returns an empty String)", "names restricted to ASCII"],
     },
     "C17": {
-        "claim": "One-step induction, decided by SAT over the real RawTable<u8,u32>: from an arbitrary 16-slot table satisfying the representation invariant (any tombstone layout, any collision pattern incl. wrap-around, hash = arbitrary 64-bit function of 4 keys), find/get, insertion (without rehash, and through the real reserve_rehash at the rehash boundary with <=1 live element) and removal preserve the invariant (incl. free >= 25 %), terminate, and change membership exactly as a set.",
+        "claim": "One-step induction, decided by SAT over the real RawTable<u8,u32>: from an arbitrary 16-slot table satisfying the representation invariant (any tombstone layout, any collision pattern incl. wrap-around, hash = arbitrary 64-bit function of 4 keys), find/get, insertion (without rehash, and through the real reserve_rehash at the rehash boundary with <=1 live element) removal and retain (tombstone compaction; its final shrinking rehash cut off by a stub) preserve the invariant (incl. free >= 25 %), terminate, and change membership exactly as a set; retain drops every rejected element exactly once.",
         "bounds": "16 slots (MIN_CAP), key universe of 4 keys, arbitrary hashes; free counter concrete in {5, 12} for insertion without rehash, = 4 with 0 or 1 live elements for insertion with rehash", "note": "trusted: Kani/CBMC; hook feature verif-hooks of linear-hashtbl (constructor/observers for the raw representation); the invariant stated in harness/hashtbl/src/proofs.rs",
-        "outside": "reserve_rehash with more than one live element or a capacity change (growth/shrink), retain, drain, clear, clone, iteration; tables larger than 16 slots",
+        "outside": "reserve_rehash with more than one live element or a capacity change (growth/shrink), retain's shrink step, drain, clear, clone, iteration; tables larger than 16 slots",
         "assumptions": ["callers never insert duplicates (contract of insert_in_slot_unchecked)"],
     },
 }
 
-HOOK_COMMITS = ["99a16a6", "bfce692", "73bba66"]
+HOOK_COMMITS = ["99a16a6", "bfce692", "73bba66", "e6453f9"]
 
 NOT_APPLICABLE = {
     "C07": "Kani/CBMC (the only engine of this technique that reaches Rust) has no threads and the real managers (rayon pool, GC thread, parking_lot locks) cannot be constructed symbolically; interleavings cannot be made solver variables for this code",
@@ -308,11 +315,34 @@ CORE = {
 }
 # heavier harnesses that a non-primary property still wants in its quick tier
 QUICK_EXTRA = {
-    "C05": {"bdd/step_apply_exists_and_deleg", "mtbdd/step_add", "bdd/base_pick_cube_dd"},
-    "C14": {"bdd/step_apply_exists_and_deleg", "mtbdd/step_add", "bcdd/base_pick_cube_dd_set"},
+    "C05": {"bdd/step_apply_exists_and_deleg", "bdd/step_apply_exists_xor_deleg", "mtbdd/step_add", "bdd/base_pick_cube_dd"},
+    "C14": {"bdd/step_apply_exists_and_deleg", "bdd/step_apply_exists_xor_deleg", "mtbdd/step_add", "bcdd/base_pick_cube_dd_set"},
     "C06": {"bdd/step_apply_exists_and", "mtbdd/step_max", "zbdd/step_subset0"},
     "C03": {"bcdd/step_ite", "zbdd/step_not"},
     "C01": {"bdd/step_xor", "tdd/step_imp"},
+}
+
+
+# Thorough-tier harnesses that are kept registered: the deeper variants that were validated to
+# finish on the unchanged tree within their time/memory limits. Other deeper variants exist in the
+# harness crates (e.g. *_n5 of every connective, ite_n5, TDD ite) and can be run by name with
+# cargo kani, but a check must not depend on a harness that may end without a verdict.
+KEEP_THOROUGH = {
+    "kernels": {"c10_i64_div_d8", "c10_i64_div_d16"},
+    "bdd": {"step_and_n5", "step_xor_n5", "step_exists_n5", "step_apply_exists_or", "step_apply_exists_xor", "step_apply_forall_and", "step_apply_unique_and"},
+    "bcdd": {"step_and_n5", "step_xor_n5", "step_forall_n5"},  # general apply_quant step: > 14 GB
+    "zbdd": {"step_union_n3", "step_diff_n3", "step_subset1_n3"},  # step_change: > 22 GB
+    "mtbdd": {"step_mul", "step_div", "step_min", "step_add_n3", "step_sub_n3"},
+    "tdd": {"step_nand", "step_nor", "step_imp_strict", "step_and_n3", "step_xor_n3", "step_equiv_n3", "step_imp_n3"},
+}
+H[:] = [h for h in H if h["tier"] == "quick" or h["name"].split("::")[-1] in KEEP_THOROUGH.get(h["crate"], ())]
+
+THOROUGH_CORE = {
+    "bdd": {"step_and_n5", "step_xor_n5", "step_exists_n5"},
+    "bcdd": {"step_and_n5", "step_xor_n5", "step_forall_n5"},
+    "zbdd": {"step_union_n3", "step_diff_n3", "step_subset1_n3"},
+    "mtbdd": {"step_mul", "step_min", "step_add_n3"},
+    "tdd": {"step_and_n3", "step_xor_n3", "step_imp_strict"},
 }
 
 
@@ -322,7 +352,12 @@ def select(pid, tier):
         if pid not in h["props"]:
             continue
         if tier == "thorough":
-            out.append(dict(h))
+            # thorough = every quick-tier harness that serves the property (no core restriction),
+            # the deeper variants of the harnesses the property is primarily about, and for the
+            # cross-cutting properties a fixed set of deeper variants per diagram kind
+            short = h["name"].split("::")[-1]
+            if h["tier"] == "quick" or h["props"][0] == pid or short in THOROUGH_CORE.get(h["crate"], ()):
+                out.append(dict(h))
             continue
         if h["tier"] != "quick":
             continue
